@@ -40,7 +40,10 @@ def gen_case(rng):
   sk = rng.choice(['no', 'all', 'all', 'names', 'names', 'names'])
   if sk == 'names':
     listed = rng.sample(unknown, rng.randint(1, len(unknown)))
-    skip = {'k': 'names', 'v': listed, '_type': rng.choice(['list', 'tuple', 'set'])}
+    named = list(listed)
+    if rng.random() < 0.3:
+      named.append(rng.choice(known))   # naming a registered configurable does not make it unknown
+    skip = {'k': 'names', 'v': named, '_type': rng.choice(['list', 'tuple', 'set'])}
   else:
     listed = list(unknown) if sk == 'all' else []
     skip = {'k': sk}
